@@ -6,13 +6,13 @@ import numpy as np
 
 def solve(body, freq, l=2, solve_for=('tidal',), kamata=True, method='RK45', rtol=1e-8, atol=None, nondim=True, max_steps=100000,
           keep_result=False, **kw):
-    """body: dict with r, rho, g, K, mu, bulk, types, static, incomp, tops. Returns dict."""
+    """body: dict with r, rho, g, K, mu, bulk, types, static, incomp, tops. solve_for=None uses the solver's default (tidal). Returns dict."""
     from TidalPy.RadialSolver import radial_solver
     a = [np.ascontiguousarray(body[k]).copy() for k in ('r', 'rho', 'g', 'K')] + [np.ascontiguousarray(body['mu'], dtype=np.complex128).copy()]
     atol = rtol * 1e-4 if atol is None else atol
     try:
         s = radial_solver(*a, float(freq), float(body['bulk']), tuple(body['types']), tuple(body['static']), tuple(body['incomp']), tuple(body['tops']),
-                          degree_l=l, solve_for=tuple(solve_for), use_kamata=kamata, integration_method=method, integration_rtol=rtol,
+                          degree_l=l, solve_for=(None if solve_for is None else tuple(solve_for)), use_kamata=kamata, integration_method=method, integration_rtol=rtol,
                           integration_atol=atol, nondimensionalize=nondim, max_num_steps=max_steps, **kw)
     except NotImplementedError as ex:
         return {'success': False, 'exc': 'NotImplementedError', 'message': str(ex)[:200]}
@@ -20,7 +20,7 @@ def solve(body, freq, l=2, solve_for=('tidal',), kamata=True, method='RK45', rto
         return {'success': False, 'exc': type(ex).__name__, 'message': str(ex)[:200]}
     out = {'success': bool(s.success), 'message': str(s.message)[:200], 'exc': None}
     if s.success:
-        out['love'] = np.array(s.love, dtype=np.complex128).reshape(len(solve_for), 3).copy()
+        out['love'] = np.array(s.love, dtype=np.complex128).reshape(1 if solve_for is None else len(solve_for), 3).copy()
         if keep_result:
             out['result'] = np.array(s.result, dtype=np.complex128).copy()
     del s
